@@ -125,9 +125,14 @@ def r1_filter_feeds_rank(ctx):
 
 # ------------------------------------------------------------------ R2
 def candidates_fn(ctx):
+    """The method of the multi-position table that builds and ranks the candidate set."""
     multi = A.multimap(ctx.repo)
+    lp = lookup_path(ctx, multi)
+    gens = [m for m in lp if any(isinstance(x, (ast.Yield, ast.YieldFrom)) for c in m.children.values() for x in ast.walk(c.node))]
+    if len(gens) == 1:
+        return gens[0]
     cands = []
-    for m in lookup_path(ctx, multi):
+    for m in lp:
         rv = recv_name(m)
         if any(isinstance(n, ast.Subscript) and is_self_attr(n.value, "maps", selfname=rv) for n in ast.walk(m.node)):
             cands.append(m)
@@ -196,40 +201,94 @@ def _names_def_ok(value, keyparam):
     return False
 
 
+def _maps_index(ctx, m, expr, depth=0):
+    """If expr reads the per-position table `self.maps[idx][...]` (directly, through a local, or through a helper of
+    the class that returns it), return the idx expression."""
+    rv = recv_name(m)
+    for b in ast.walk(expr):
+        if isinstance(b, ast.Subscript) and is_self_attr(b.value, "maps", selfname=rv):
+            return b.slice
+    if isinstance(expr, ast.Name) and depth < 3:
+        for s in all_stmts(m.node):
+            if isinstance(s, ast.Assign) and any(isinstance(t, ast.Name) and t.id == expr.id for t in s.targets):
+                r = _maps_index(ctx, m, s.value, depth + 1)
+                if r is not None:
+                    return r
+    for c in ast.walk(expr):
+        if isinstance(c, ast.Call) and is_self_attr(c.func, selfname=rv) and m.cls is not None and depth < 3:
+            h = ctx.repo.find_method(m.cls, c.func.attr)
+            if h is not None and h is not m:
+                hrv = recv_name(h)
+                hp = [p for p in h.params if p != hrv]
+                for b in ast.walk(h.node):
+                    if isinstance(b, ast.Subscript) and is_self_attr(b.value, "maps", selfname=hrv) and isinstance(b.slice, ast.Name) and b.slice.id in hp:
+                        i = hp.index(b.slice.id)
+                        if i < len(c.args):
+                            return c.args[i]
+    return None
+
+
+def _is_negative(idx):
+    return (isinstance(idx, ast.UnaryOp) and isinstance(idx.op, ast.USub)) or (isinstance(idx, ast.Constant) and isinstance(idx.value, int) and idx.value < 0)
+
+
+def _expand_bool_locals(m, ats, depth=0):
+    """A truthy/falsy atom over a local that is assigned once from a condition is replaced by that condition's atoms."""
+    out = []
+    for a in ats:
+        if a[0] in ("truthy", "falsy") and isinstance(a[1], ast.Name) and depth < 3:
+            defs = [s for s in all_stmts(m.node) if isinstance(s, ast.Assign) and any(isinstance(t, ast.Name) and t.id == a[1].id for t in s.targets)]
+            if len(defs) == 1 and isinstance(defs[0].value, (ast.BoolOp, ast.Compare, ast.UnaryOp)):
+                out += _expand_bool_locals(m, atoms(defs[0].value, negate=a[0] == "falsy"), depth + 1)
+                continue
+        out.append(a)
+    return out
+
+
 def arity_filter(ctx):
-    """-> (method, comprehension, dict of recognised atoms, list of unrecognised atoms, names)"""
+    """-> (method, key parameter, (anchor node, atoms) of the per-position filter, list of var-positional legs)."""
+    from .common import path_atoms
+
     m = candidates_fn(ctx)
     rv = recv_name(m)
     keyparam = [p for p in m.params if p != rv][0]
-    comps = []
-    for st in all_stmts(m.node):
-        if isinstance(st, ast.Assign) and isinstance(st.value, (ast.DictComp, ast.ListComp, ast.SetComp)):
-            c = st.value
-            g = c.generators[0]
-            if isinstance(g.iter, ast.Call) and isinstance(g.iter.func, ast.Attribute) and g.iter.func.attr == "items" and isinstance(g.iter.func.value, ast.Name):
-                srcname = g.iter.func.value.id
-                comps.append((st, c, g, srcname))
-    # which comprehension reads the per-position table (maps[i]) and which the var-positional leg (maps[-1])?
-    main = []
-    legs = []
-    for st, c, g, srcname in comps:
-        origin = None
-        for s in all_stmts(m.node):
-            if isinstance(s, ast.Assign) and any(isinstance(t, ast.Name) and t.id == srcname for t in s.targets):
-                for b in ast.walk(s.value):
-                    if isinstance(b, ast.Subscript) and is_self_attr(b.value, "maps", selfname=rv):
-                        idx = b.slice
-                        origin = "leg" if (isinstance(idx, ast.UnaryOp) and isinstance(idx.op, ast.USub)) or (isinstance(idx, ast.Constant) and isinstance(idx.value, int) and idx.value < 0) else "main"
-        if origin == "main":
-            main.append((st, c, g))
-        elif origin == "leg":
-            legs.append((st, c, g))
-    ctx.require(len(main) == 1, f"{m.key}: expected one comprehension filtering the per-position candidates, found {len(main)}")
+    sites = []
+    for n in ast.walk(m.node):
+        gens = []
+        if isinstance(n, (ast.DictComp, ast.ListComp, ast.SetComp, ast.GeneratorExp)):
+            gens = [(g.target, g.iter, "comp", n, g) for g in n.generators]
+        elif isinstance(n, ast.For):
+            gens = [(n.target, n.iter, "loop", n, None)]
+        for target, it, kind, node, g in gens:
+            if not (isinstance(it, ast.Call) and isinstance(it.func, ast.Attribute) and it.func.attr == "items"):
+                continue
+            if not (isinstance(target, ast.Tuple) and any(isinstance(e, ast.Tuple) for e in target.elts)):
+                continue
+            idx = _maps_index(ctx, m, it.func.value)
+            if idx is None:
+                continue
+            if kind == "comp":
+                ats = []
+                for c in g.ifs:
+                    ats += atoms(c)
+            else:
+                # the store(s) in the loop body: conditions under which a handler is kept
+                stores = [s for b in node.body for s in ast.walk(b) if isinstance(s, ast.Assign) and isinstance(s.targets[0], ast.Subscript)]
+                ats = []
+                if stores:
+                    inner = path_atoms(m.node, stores[0])
+                    outer = path_atoms(m.node, node)
+                    ats = [a for a in inner if not any(a is o for o in outer)][: len(inner) - len(outer)] if len(inner) >= len(outer) else inner
+            ats = _expand_bool_locals(m, ats)
+            sites.append(("leg" if _is_negative(idx) else "main", node, ats))
+    main = [s for s in sites if s[0] == "main"]
+    legs = [s for s in sites if s[0] == "leg"]
+    ctx.require(len(main) == 1, f"{m.key}: expected one filter over the per-position candidates, found {len(main)}")
     return m, keyparam, main[0], legs
 
 
 def r2_arity_keyword_filter(ctx, strict_extra=False):
-    m, keyparam, (st, comp, g), legs = arity_filter(ctx)
+    m, keyparam, (_kind, st, conj), legs = arity_filter(ctx)
     ctx.touch(m)
     # locals
     defs = {}
@@ -238,9 +297,6 @@ def r2_arity_keyword_filter(ctx, strict_extra=False):
             defs.setdefault(s.targets[0].id, []).append(s.value)
     nargs_vars = {n for n, vs in defs.items() if len(vs) == 1 and _nargs_def_ok(vs[0], keyparam)}
     names_vars = {n for n, vs in defs.items() if len(vs) == 1 and _names_def_ok(vs[0], keyparam)}
-    conj = []
-    for c in g.ifs:
-        conj += atoms(c)
     found = {"req_pos": None, "max_pos": None, "req_names": None}
     extra = []
 
@@ -291,11 +347,11 @@ def r2_arity_keyword_filter(ctx, strict_extra=False):
             "the positional count / supplied-name set are not computed from the key as the filter assumes",
         )
         dead, why = _vararg_dead(ctx)
-        for lst, lc, lg in legs:
+        for _k, lnode, _ats in legs:
             ctx.ob(
                 f"{m.key}:vararg-leg-dead",
-                m.loc(lst),
-                f"the var-positional leg (`{short(lc, 40)}`) cannot contribute candidates: {why}",
+                m.loc(lnode),
+                f"the var-positional leg (`{short(lnode, 40)}`) cannot contribute candidates: {why}",
                 dead,
                 f"the var-positional leg is live ({why}) and does not apply the arity / keyword filter",
             )
